@@ -371,7 +371,35 @@ func TestCheck(t *testing.T) {
 				samples = append(samples, map[string]any{"pair": p.Name, "tlc": c.TLCOutTail})
 			}
 		}
-		res.Coverage = map[string]any{"states": states, "transitions": trans, "traces_validated_against_impl": trans, "samples": samples, "pairs": per, "not_covered": notCovered,
+		// deep step equality on states far from the initial state
+		var deep []any
+		for _, d := range deepPairs(pairs()) {
+			if only != "" && d.Name != only {
+				continue
+			}
+			if only == "" && !env.Thorough() && !d.Quick {
+				notCovered = append(notCovered, d.Name+" (thorough tier only)")
+				continue
+			}
+			dr, err := deepCompare(d, env)
+			if err != nil {
+				t.Fatalf("deep pair %s: %v", d.Name, err)
+			}
+			deep = append(deep, map[string]any{"pair": d.Name, "deep_states_given_to_tlc": dr.States, "spec_steps": dr.SpecEdges, "go_steps": dr.GoEdges, "go_error_edges": dr.GoErrorEdges, "not_compared": dr.NotCompared})
+			if dr.NotCompared != "" {
+				notCovered = append(notCovered, d.Name+" ("+dr.NotCompared+")")
+				continue
+			}
+			states += int64(dr.States)
+			trans += int64(dr.GoEdges)
+			if len(dr.Diffs) > 0 {
+				res.Violations = append(res.Violations, hres.Viol{Key: d.Name + "/deep-step-differs", What: dr.Diffs[0], Replay: replay{d.Name}})
+			}
+			if dr.GoErrorEdges > 0 {
+				res.Violations = append(res.Violations, hres.Viol{Key: d.Name + "/deep-go-error-edge", What: fmt.Sprintf("the generated Go fails on %d steps from deep reachable states where TLC computed successors without error", dr.GoErrorEdges), Replay: replay{d.Name}})
+			}
+		}
+		res.Coverage = map[string]any{"deep_step_equality": deep, "states": states, "transitions": trans, "traces_validated_against_impl": trans, "samples": samples, "pairs": per, "not_covered": notCovered,
 			"exhaustive": allCompared, "explanation": "per pair: complete TLC state graph (-dump dot,actionlabels) == complete Go-side graph (every reachable spec state injected into the real generated critical sections; all choice resolutions); traces_validated = every edge of the model's graph is matched by an execution of the implementation"}
 		return res
 	})
